@@ -19,20 +19,23 @@ from . import common
 PID = "C06"
 LEVEL = "exploration"
 RULE = (
-    "bounded-exhaustive part: pattern universe = every pattern AST with <=k node patterns over {Neg, Add, Sub, Split(2 outputs)} "
+    "enumerated part: pattern universe = every pattern AST with <=k node patterns over {Neg, Add, Sub, Split(2 outputs)} "
     "(attr stratum: {Neg, Elu(alpha), custom::Neg(p,q), Sub}) up to variable renaming, all wirings/shared nodes/repeated variables/"
     "single- and two-output-node forms, decorated with <=b features from {numeric constant, OrValue with a variable alternative "
     "(both orders, with/without tag_var), trailing None input, trailing can_match_none variable, extra variable input, "
     "_allow_other_inputs (with/without dropping an input), attribute constant/variable/can_match_none, _allow_other_attributes=False, "
     "_domain} plus the family Root(OrValue[Inner1, Inner2]) (OpIdDispatchOr and BacktrackingOr); host universe = every rooted host "
     "graph (all nodes ancestors of the root; for two-output-node patterns: of one of two roots) with <=n nodes over the same alphabet "
-    "and leaves {graph inputs a,b, scalar initializer c}, once per isomorphism class, x every assignment of {unused, graph output, "
-    "consumed by an outside node} to its values for the patterns that match structurally.  quick: k<=2,b<=1 x n<=3; thorough: "
-    "k<=3 (b=0) x n<=3 and x every 2nd rooted host with n<=4 over leaf a, k<=2 b<=2 x n<=2, k<=2 b<=1 x every 4th rooted host with n<=4 over leaf a, k<=2 b=0 x n<=4 over a,b.  Triples whose root "
-    "operator differs from the pattern's root operator are run on the implementation for a deterministic 1/8 sample.  Every triple is "
-    "run with check_nodes_are_removable False and (when a structural instance exists, else 1/64 sample on 4 variants) True, and patterns with Add "
-    "additionally through RewriteRuleSet(commute=True).  fixed family: 128 patterns with three independent output nodes x 30 hosts.  random part (thorough): pattern/host pairs up to 8/20 nodes with a planted, "
-    "perturbed instance, every host node as root.  non-trivial = triple with a lax instance; distinct = patterns / hosts with >=1 instance"
+    "and leaves {graph inputs a,b, scalar initializer c}, once per isomorphism class; every (pattern, rooted host) pair with equal root "
+    "operator is evaluated without the removability check (other pairs: 1/8 sample on the implementation, the spec is empty by S1+S2); "
+    "for the pairs with a structural instance, 2 of 8 sampled assignments of {unused, graph output, consumed by an outside node} to "
+    "the host's values are evaluated with the removability check (1/64 of the other pairs on one); patterns with Add additionally "
+    "through RewriteRuleSet(commute=True).  quick: k<=2,b<=1 x n<=3 over a,b (n<=2 with c); two-output-node patterns x n<=2; attr and "
+    "optional-input strata n<=3.  thorough adds: k<=2,b<=1 x n<=3 with c; k<=3,b=0 x n<=3 and x every 2nd rooted host with n<=4 over "
+    "leaf a; k<=2,b<=2 x n<=2; k<=2,b<=1 x every 4th rooted host with n<=4 over leaf a; k<=2,b=0 x n<=4 over a,b; attr b<=2; "
+    "two-output-node k<=3.  fixed family: 128 patterns with three independent output nodes x 30 hosts.  random part (20000 pairs in "
+    "thorough, 1600 in quick): pattern/host pairs up to 8/20 nodes with a planted, perturbed instance, every host node as root.  "
+    "non-trivial = evaluation with a lax instance; distinct = patterns / rooted hosts / random pairs with >=1 such evaluation"
 )
 ASSUMPTIONS = [
     "match_spec (vf/c06_spec.py, rules S1..S10 of DESIGN.md C06) is the documented meaning of a pattern",
@@ -57,7 +60,9 @@ TIMEOUT = 900.0
 
 
 def EXHAUSTIVE(tier):
-    return True
+    # the (pattern x rooted host) products are enumerated completely, but root-operator-mismatch triples and the
+    # graph-output/consumer variants are sampled (see RULE), so the run as a whole is not claimed exhaustive
+    return False
 
 
 def thresholds(tier):
